@@ -290,7 +290,9 @@ func (r *registry) describeErr(err error) string {
 			return "inner-cause-only:" + toks[i]
 		}
 		if w, ok := re.base.(wrapErr); ok && errors.Is(err, w.Inner) {
-			return "inner-cause-only:" + toks[i]
+			if _, own := w.Inner.(*simErr); own { // a context error as inner cause identifies nothing
+				return "inner-cause-only:" + toks[i]
+			}
 		}
 	}
 	switch {
